@@ -348,7 +348,7 @@ def discardLoop : List Nat → RecvUnrel → Res Empty RecvUnrel
       discardLoop rest { r with lastReceived := SMap.erase r.lastReceived id, slices := SMap.erase r.slices id, mem := mem }
 
 def RecvUnrel.discardOld (r : RecvUnrel) (now : Nat) : Res Empty RecvUnrel :=
-  let lost := (r.lastReceived.filter (fun (_, t) => now - t ≥ DISCARD_AFTER_NS)).map (·.1)
+  let lost := (r.lastReceived.filter (fun (_, t) => now - t ≥ DISCARD_FRAGMENT_AFTER_NS)).map (·.1)
   discardLoop lost r
 
 def RecvUnrel.receive (r : RecvUnrel) : Res Empty (RecvUnrel × Option Bytes) :=
